@@ -823,3 +823,9 @@ pub mod test {
         }
     }
 }
+
+#[cfg(kani)]
+#[allow(warnings, clippy::all, clippy::pedantic)]
+pub(crate) mod verif_kani {
+    include!(concat!(env!("IPA_VERIF_DIR"), "/harness/prss.rs"));
+}
